@@ -6,6 +6,7 @@ mod gen;
 mod modinfo;
 mod projects;
 mod props;
+mod resolve;
 mod run;
 mod sbx;
 mod shape;
